@@ -44,21 +44,27 @@ def element_at_or_default_(
         scheduler: abc.SchedulerBase | None = None,
     ) -> abc.DisposableBase:
         index_ = index
+        done = False
 
         def on_next(x: _T) -> None:
-            nonlocal index_
+            nonlocal index_, done
             found = False
             with source.lock:
+                if done:
+                    return
                 if index_:
                     index_ -= 1
                 else:
                     found = True
+                    done = True
 
             if found:
                 observer.on_next(x)
                 observer.on_completed()
 
         def on_completed():
+            if done:
+                return
             if not has_default:
                 observer.on_error(ArgumentOutOfRangeException())
             else:
